@@ -1582,6 +1582,10 @@ func (stmt *UpsertIntoStmt) execAt(ctx context.Context, tx *SQLTx, params map[st
 						return nil, err
 					}
 
+					if rval.IsNull() && (col.notNull || col.autoIncrement) {
+						return nil, fmt.Errorf("%w (%s)", ErrNotNullableColumnCannotBeNull, col.colName)
+					}
+
 					valuesByColID[col.id] = rval
 
 					// update row representation for check constraints
@@ -1592,6 +1596,11 @@ func (stmt *UpsertIntoStmt) execAt(ctx context.Context, tx *SQLTx, params map[st
 							break
 						}
 					}
+				}
+
+				// the row written is the existing one with the SET list applied: it must satisfy the checks too
+				if err := checkConstraints(tx, table.checkConstraints, r, table.name); err != nil {
+					return nil, err
 				}
 			}
 		}
